@@ -11,7 +11,7 @@ import time
 from datetime import datetime, timedelta, timezone
 
 from mc import rp66 as R
-from mc.engine import Outcome
+from mc.engine import Outcome, sha
 
 ID = 'C06'
 ENGINE = 'E1 full product over finite value domains'
@@ -29,7 +29,7 @@ INT_RANGE = {'USHORT': (0, 255), 'UNORM': (0, 65535), 'ULONG': (0, 2 ** 32 - 1),
 
 def shards(tier):
     s = [{'code': c} for c in ('USHORT', 'UNORM', 'ULONG', 'SSHORT', 'SNORM', 'SLONG', 'FSINGL', 'FDOUBL', 'IDENT',
-                               'ASCII', 'STATUS', 'OBNAME', 'OBJREF', 'WARM')]
+                               'ASCII', 'STATUS', 'OBNAME', 'OBJREF', 'WARM', 'COUNT')]
     s += [{'code': 'UVARI', 'part': p} for p in range(4)]
     s += [{'code': 'DTIME', 'tz': tz, 'year': y} for tz in ('UTC', 'XXX-5:30') for y in (1899, 1900, 1970, 2000, 2155, 2156)]
     return s
@@ -115,6 +115,13 @@ def cases(shard, tier):
                     for us in us_vals:
                         for tz in (None, 0, 330, -480, 840):
                             yield {'code': c, 'dt': [shard['year'], mo, d, H, M, S, us], 'tz': tz, 'ptz': shard['tz']}
+    elif c == 'COUNT':
+        # the count characteristic of an attribute is a UVARI emitted by the attribute itself, not through write_struct
+        for n in list(range(1, 301)) + [16383, 16384, 16385]:
+            for under in ('USHORT', 'FDOUBL', 'ASCII'):
+                if n > 300 and under != 'USHORT':
+                    continue
+                yield {'code': 'COUNT', 'n': n, 'under': under}
     elif c == 'WARM':
         groups = [('FDOUBL', [{'pat': 0}, {'pat': 0x8000000000000000}, {'v': 0}]),
                   ('FSINGL', [{'pat32': 0}, {'pat32': 0x80000000}]),
@@ -182,6 +189,45 @@ def run_case(case):
         if pos != len(b):
             return None, f"decoder consumed {pos} of {len(b)} emitted bytes"
         return v, None
+
+    if c == 'COUNT':
+        from dliswriter import Attribute
+        n, under = case['n'], case['under']
+        vals = [k % 256 for k in range(n)] if under == 'USHORT' else [k + 0.5 for k in range(n)] if under == 'FDOUBL' \
+            else [f'text {k}' for k in range(n)]
+        a = Attribute('LABEL', multivalued=True, representation_code=RC(CODES[under]))
+        a.value = vals
+        b = a.get_as_bytes()
+        try:
+            d = b[0]
+            if d >> 5 != 1:
+                raise R.FormatError('count_role', f"descriptor {d:#x} is not an ATTRIB component")
+            pos = 1
+            if d & 0x10:
+                _, _, pos = R.decode_value(CODES['IDENT'], b, pos)
+            cnt = 1
+            if d & 0x08:
+                p0 = pos
+                cnt, pos = R.decode_uvari(b, pos)
+                if cnt == n and pos - p0 != (1 if n < 128 else 2 if n < 16384 else 4):
+                    viol.append(("C06:COUNT:length-form", f"count {n} emitted in {pos - p0} bytes"))
+            code = 19
+            if d & 0x04:
+                code = b[pos]
+                pos += 1
+            if d & 0x02:
+                _, _, pos = R.decode_value(CODES['IDENT'], b, pos)
+            got = []
+            if d & 0x01:
+                for _ in range(cnt):
+                    v, _, pos = R.decode_value(code, b, pos)
+                    got.append(v)
+            if cnt != n or code != CODES[under] or pos != len(b) or got != vals:
+                viol.append(("C06:COUNT:wrong-bytes", f"{n} {under} values: count field decodes to {cnt}, code {code}, "
+                                                      f"{pos} of {len(b)} bytes consumed, values equal: {got == vals}"))
+        except (R.FormatError, IndexError) as e:
+            viol.append(("C06:COUNT:wrong-bytes", f"{n} {under} values: {e}"))
+        return Outcome('ok:count', viol, True, digest=sha(b))
 
     if c == 'WARM':
         under = case['under']
